@@ -30,10 +30,27 @@ type anode struct {
 }
 
 type aclass struct {
-	chars   []rune
+	units   []rune // members in source order; a '-' is always spelled raw
+	chars   []rune // derived from units by the grammar's reading (see deriveClass)
 	ranges  [][2]rune
 	classes []string
 	inv, ic bool
+}
+
+// deriveClass reads the member sequence the way grammar/pigeon.peg does: at each position a
+// range (member, raw '-', member) is tried first, otherwise the member is a single character.
+func deriveClass(c *aclass) {
+	c.chars, c.ranges = nil, nil
+	u := c.units
+	for i := 0; i < len(u); {
+		if i+2 < len(u) && u[i+1] == '-' {
+			c.ranges = append(c.ranges, [2]rune{u[i], u[i+2]})
+			i += 3
+			continue
+		}
+		c.chars = append(c.chars, u[i])
+		i++
+	}
 }
 
 type arule struct {
@@ -121,23 +138,25 @@ func (g *c03gen) primary() *anode {
 		return n
 	case 3, 4:
 		c := &aclass{inv: r.Intn(3) == 0, ic: r.Intn(3) == 0}
-		for i := 0; i < r.Intn(4); i++ {
-			x := c03Runes[r.Intn(len(c03Runes))]
-			if x == '-' || x == '^' || x == '\n' {
-				continue // their placement rules are exercised by fixed cases below
+		pickm := func() rune {
+			for {
+				x := c03Runes[r.Intn(len(c03Runes))]
+				if x != '\n' {
+					return x
+				}
 			}
-			c.chars = append(c.chars, x)
 		}
-		for i := 0; i < r.Intn(3); i++ {
-			lo, hi := c03Runes[r.Intn(len(c03Runes))], c03Runes[r.Intn(len(c03Runes))]
-			if lo == '-' || hi == '-' || lo == '\n' || hi == '\n' || lo == '^' {
-				continue
+		for i := 0; i < r.Intn(5); i++ {
+			switch r.Intn(6) {
+			case 0:
+				c.units = append(c.units, '-')
+			case 1, 2:
+				c.units = append(c.units, pickm(), '-', pickm())
+			default:
+				c.units = append(c.units, pickm())
 			}
-			if lo > hi {
-				lo, hi = hi, lo
-			}
-			c.ranges = append(c.ranges, [2]rune{lo, hi})
 		}
+		deriveClass(c)
 		for i := 0; i < r.Intn(3); i++ {
 			c.classes = append(c.classes, g.ucl[r.Intn(len(g.ucl))])
 		}
@@ -155,7 +174,7 @@ func (g *c03gen) primary() *anode {
 
 var c03CodeBits = []string{
 	"return nil, nil", "x := map[string]int{\"a\": 1}", "if a { b() } else { c() }", "s := \"}{\"", "t := `{{ raw } `", "r := '{'", "q := '\\''",
-	"// comment with } brace\n", "/* { unbalanced in comment */", "for { break }", "f(func() { g() })", "u := \"esc \\\" } quote\"", "\n\n", "\t", "é := 世",
+	"// comment with } brace\n", "/* { unbalanced in comment */", "/** } **/", "/***/", "for { break }", "f(func() { g() })", "u := \"esc \\\" } quote\"", "\n\n", "\t", "é := 世",
 	"z := \"\\\\\"", "",
 }
 
@@ -213,7 +232,7 @@ func (s *speller) ws(need bool) {
 		case 1:
 			s.sb.WriteString("\t")
 		case 2:
-			s.sb.WriteString(" /* c } { */ ")
+			s.sb.WriteString([]string{" /* c } { */ ", "/***/", " /** doc **/ ", "/* a * b ** c */", " /* // */ ", "/*\n * banner\n **/"}[r.Intn(6)])
 		case 3:
 			s.sb.WriteString(" // line comment } ' \" \n")
 		case 4:
@@ -299,22 +318,15 @@ func (s *speller) class(c *aclass) string {
 	if c.inv {
 		sb.WriteByte('^')
 	}
-	first := true
-	for _, x := range c.chars {
-		f := s.runeForm(x, ']')
-		if first && !c.inv && f == "^" {
+	for i, x := range c.units {
+		f := "-"
+		if x != '-' {
+			f = s.runeForm(x, ']')
+		}
+		if i == 0 && !c.inv && f == "^" {
 			f = `\x5e`
 		}
 		sb.WriteString(f)
-		first = false
-	}
-	for _, rg := range c.ranges {
-		lo := s.runeForm(rg[0], ']')
-		if first && !c.inv && lo == "^" {
-			lo = `\x5e`
-		}
-		sb.WriteString(lo + "-" + s.runeForm(rg[1], ']'))
-		first = false
 	}
 	for _, u := range c.classes {
 		if len(u) == 1 && s.r.Intn(2) == 0 {
@@ -988,6 +1000,7 @@ func c03Fixed() []*c03job {
 	cls := func(chars string, ranges [][2]rune, inv bool) *anode {
 		return &anode{kind: "Class", cls: &aclass{chars: []rune(chars), ranges: ranges, inv: inv}}
 	}
+	_ = deriveClass
 	seq := func(k ...*anode) *anode { return &anode{kind: "Seq", kids: k} }
 	lit := func(v string) *anode { return &anode{kind: "Lit", val: v} }
 	return []*c03job{
